@@ -132,7 +132,12 @@ def build(rnd, tier, flags):
                 pass
             else:
                 edits.append(["del-open:" + kind, "del", oi, None, d, named])
-            edits.append(["del-end:" + kind, "del", ci, None, d, named])
+            if (kind in SUBPROGS and d >= 1 and any(u.kind == "program0" for u in units)
+                    and skip("no_del_open_subprogram")):
+                pass    # same recorded finding: with a PROGRAM-less main program later in the file, its statements are
+                #         absorbed by the host after the CONTAINS part (part order is not enforced)
+            else:
+                edits.append(["del-end:" + kind, "del", ci, None, d, named])
             if kind != "do_label":
                 edits.append(["dup-open:" + kind, "ins", oi, lines[oi], d, named])
             if kind in END_TEXT and not (stray_end_do and skip("no_stray_end_do_in_label_do")):
@@ -206,12 +211,25 @@ def evaluate(case):
             continue
         if o2.kind == "tree":
             i = e[2]
-            return Result(False, "accepted:" + e[0], nontrivial, labels,
+            tag = "+parts-out-of-order" if _parts_out_of_order(o2.tree) else ""
+            return Result(False, "accepted:" + e[0] + tag, nontrivial, labels,
                           {"edit": e[:4], "original_line": lines[i], "context": new[max(0, i - 4):i + 5],
                            "printed": (o2.text or "")[:1500]})
         # other exceptions are C06's business; tallied as rejected here but labelled
         labels.append("other-exception")
     return Result(True, None, nontrivial, labels)
+
+
+def _parts_out_of_order(tree):
+    """Does some program unit of the accepted tree hold a specification or execution part AFTER its CONTAINS part?"""
+    from vf.treeform import iter_nodes
+    for n in iter_nodes(tree):
+        kids = [type(c).__name__ for c in getattr(n, "children", []) or []]
+        if "Internal_Subprogram_Part" in kids or "Module_Subprogram_Part" in kids:
+            k = max(kids.index(x) for x in ("Internal_Subprogram_Part", "Module_Subprogram_Part") if x in kids)
+            if any(c in ("Specification_Part", "Execution_Part", "Implicit_Part") for c in kids[k + 1:]):
+                return True
+    return False
 
 
 def kf_match(entry, case, res):
